@@ -503,6 +503,13 @@ fn check(case: &Case) -> Result<Verdict, String> {
             classes.push("avoided:convert-cwd-dot(luau init one level deep)".into());
             continue;
         }
+        if case.avoid_cwd_dot && resolver::is_relative(&case.req) && !resolver::dir_of(&resolver::normalize(&case.requirer)).is_empty() && bare_directory_form(&case.req) && resolver::dir_of(&resolver::normalize(&original)).is_empty() {
+            // same known finding: a relative require that names the working directory itself
+            // (`..` from `lib/main.lua`, `..` from `src/pkg/init.lua` in the luau mode) is located
+            // as `./init.lua`
+            classes.push("avoided:convert-cwd-dot(relative require of the working directory)".into());
+            continue;
+        }
         let new_req = match convert(case, target) {
             Ok(s) => s,
             Err(Seen::Panic(p)) => return Err(format!("darklua panicked in convert_require ({}): {}\n{}", label, p, describe(case))),
@@ -887,7 +894,8 @@ fn gen_random(t: &mut Tape, avoid: &Avoid) -> Case {
         }
     }
     let requirer_dir = *t.pick(&R_DIRS);
-    let requirer_name = *t.pick(&["main.lua", "init.lua", "init.luau", "main.luau", "index.lua"]);
+    // names that merely start like a module-folder file (`init.server.luau`) are ordinary files
+    let requirer_name = *t.pick(&["main.lua", "init.lua", "init.luau", "main.luau", "index.lua", "init.server.luau", "init.spec.lua", "index.client.luau"]);
     let requirer = resolver::join(requirer_dir, requirer_name);
     let keys: Vec<String> = files.keys().cloned().collect();
     let rprefix = format!("{}/", requirer);
@@ -997,6 +1005,11 @@ fn gen_random(t: &mut Tape, avoid: &Avoid) -> Case {
         _ => format!("{}/{}", stem, folder_stem(&folder)),
     };
     let mut req = format!("{}{}{}", head, mid, tail);
+    // now and then the bare directory forms: `.`, `..`, `./`, `../`, `./x/..` (the module-folder file
+    // of the own or of the parent directory)
+    if t.bool(12) {
+        req = t.pick(&[".", "..", "./", "../", "./pkg/..", "../."]).to_string();
+    }
     if !resolver::is_relative(&req) {
         // the documentation does not say whether `name/../x` is normalised before the name is
         // looked up (darklua does): keep the name in place
@@ -1034,6 +1047,12 @@ fn gen_random(t: &mut Tape, avoid: &Avoid) -> Case {
         avoid_cwd_dot: avoid.dot_source,
         avoid_double_pop: avoid.double_pop,
     }
+}
+
+/// `.`, `..`, `./`, `../..`, `./x/..`: a require that names a directory only
+fn bare_directory_form(req: &str) -> bool {
+    let n = resolver::normalize(req);
+    n.is_empty() || n.split('/').all(|c| c == "." || c == "..")
 }
 
 // ------------------------------------------------------------------------------------ driver
